@@ -24,6 +24,12 @@ Theorem C34_plan_rejects :
 Proof. exact build_plan_rejects. Qed.
 Print Assumptions C34_plan_rejects.
 
+Theorem C34_plan_aligned :
+  forall offset steps, offset mod c_cdnMinChunk = 0 ->
+    steps_ok offset steps -> Forall (fun s => fst s mod c_cdnMinChunk = 0) steps.
+Proof. intros offset steps. exact (steps_aligned steps offset). Qed.
+Print Assumptions C34_plan_aligned.
+
 (* CTR: block k of a chunk at [offset] is encrypted with the counter the CDN documentation
    prescribes for block offset/16 + k of the file (IV with its low 32 bits = that number), as
    long as the block number fits 32 bits (files below 64 GiB) ... *)
@@ -84,6 +90,16 @@ End WithSHA.
 Print Assumptions C34_verify.
 Print Assumptions C34_verify_genuine.
 Print Assumptions C34_complete_partial.
+
+(* ... and the EMPTY chunk, which C34_complete_partial excludes, is accepted at ANY offset (code:
+   len(data) == 0 -> nil): an empty CDN answer ends the download at a part boundary, which for part
+   sizes that are not multiples of the hash window is neither the end of the file nor a window end.
+   So at download level an accepted incomplete download ends at: a hash-window end (short chunk) or a
+   part boundary (empty chunk) -- the two shapes of the known finding. *)
+Theorem C34_empty_accepted :
+  forall sha hash_for fetch offset lim, verify_chunk sha hash_for fetch offset lim [] = Some [].
+Proof. reflexivity. Qed.
+Print Assumptions C34_empty_accepted.
 
 (* The full completeness statement
 
@@ -156,6 +172,30 @@ Theorem C34_verifier_download :
       concat (map snd chunks) = file.
 Proof. exact verified_download_is_file. Qed.
 Print Assumptions C34_verifier_download.
+
+(* non-vacuity of the hypotheses of C34_queue / C34_verifier_download: two windows of a 3-byte file,
+   a server that hands them out one per request and repeats the last one at the end, an injective "hash" *)
+Definition qw0 : hwin := {| w_off := 0; w_limit := 2; w_hash := [7; 8] |}.
+Definition qw1 : hwin := {| w_off := 2; w_limit := 2; w_hash := [9] |}.
+Definition q_server (o : Z) : list hwin := if o <? 2 then [qw0] else [qw1].
+Example C34_queue_nonvacuous :
+  contig 0 [qw0; qw1] /\
+  (forall done rest, [qw0; qw1] = done ++ rest -> rest <> [] ->
+     exists b more, b <> [] /\ rest = b ++ more /\ q_server (end_of 0 done) = b) /\
+  v_drain q_server 3 (new_verifier []) = ([qw0; qw1], true) /\
+  zlen [7; 8; 9] <= end_of 0 [qw0; qw1] /\
+  (forall w, In w [qw0; qw1] -> w_hash w = (fun x => x) (gen [7; 8; 9] w)) /\
+  vq_verify (fun x => x) qw1 [9] = true /\ vq_verify (fun x => x) qw1 [9; 1] = false.
+Proof.
+  split; [cbn; repeat split; Lia.lia|]. split.
+  { intros done rest H Hne. destruct done as [|d0 [|d1 [|d2 done]]]; cbn in H.
+    - subst rest. exists [qw0], [qw1]. split; [discriminate|split; reflexivity].
+    - inversion H; subst. exists [qw1], []. split; [discriminate|split; reflexivity].
+    - inversion H; subst. contradiction.
+    - inversion H. }
+  split; [vm_compute; reflexivity|]. split; [vm_compute; discriminate|].
+  split; [intros w [<-|[<-|[]]]; vm_compute; reflexivity|]. split; vm_compute; reflexivity.
+Qed.
 
 (* non-vacuity of the plan theorem's hypotheses and a plan across two MiB boundaries *)
 Example C34_plan_example :
